@@ -275,7 +275,7 @@ End Sem.
 (* ---- typing of values against a declaration ------------------------------- *)
 Definition is_msg_ty (t : fty) : bool :=
   match t with
-  | TDate _ _ | TDecimal _ _ | TTimestamp _ _ | TAny _ _ _ | TObject _ _ | TOneof _ _ => true
+  | TDate _ _ | TDecimal _ _ | TTimestamp _ _ | TAny _ _ _ | TObject _ _ _ | TOneof _ _ _ => true
   | _ => false
   end.
 
